@@ -6,7 +6,7 @@
 # (seeded/RESULTS.txt) come from run_seeded.sh, which applies each change to /repo itself.
 # `tools/try_mutant_iso.sh --clean` removes the scratch trees.
 set -u
-ISO=/tmp/mutiso
+ISO=${ISO_DIR:-/tmp/mutiso}   # ISO_DIR: another scratch root (several runners side by side)
 if [ "${1:-}" = "--clean" ]; then
     git -C /repo worktree remove --force $ISO/repo 2>/dev/null; git -C /repo worktree prune; rm -rf $ISO; exit 0
 fi
@@ -23,19 +23,21 @@ if [ "${ISO_HARNESS:-working}" = "committed" ]; then
     rm -rf $ISO/committed && mkdir -p $ISO/committed && git -C /verif archive HEAD harness | tar -x -C $ISO/committed
     rsync -a --delete --exclude target --exclude build.log $ISO/committed/harness/ $ISO/verif/harness/
 else
-    rsync -a --delete --exclude target --exclude build.log /verif/harness/ $ISO/verif/harness/
+    # ISO_SRC: another harness source tree (a development copy) instead of the working copy
+    rsync -a --delete --exclude target --exclude build.log "${ISO_SRC:-/verif/harness}/" $ISO/verif/harness/
 fi
 sed -i "s#path = \"/repo\"#path = \"$ISO/repo\"#" $ISO/verif/harness/Cargo.toml
 cp /verif/check /verif/KNOWN_FINDINGS.txt $ISO/verif/
 rsync -a --delete --exclude 'violation-*' /verif/replays/ $ISO/verif/replays/
 for l in corpus .cache fuzz; do [ -e $ISO/verif/$l ] || ln -s /verif/$l $ISO/verif/$l; done
 cd $ISO/verif
-export PV_EVIDENCE_DIR=/tmp/mut_evidence
+OUT=/tmp; [ -n "${ISO_DIR:-}" ] && OUT=$ISO
+export PV_EVIDENCE_DIR=$OUT/mut_evidence
 mkdir -p $PV_EVIDENCE_DIR
 for id in "$@"; do
-    PV_NO_SHRINK=${PV_NO_SHRINK-1} ./check "$id" quick >/tmp/mut_$id.out 2>/tmp/mut_$id.err
+    PV_NO_SHRINK=${PV_NO_SHRINK-1} ./check "$id" quick >$OUT/mut_$id.out 2>$OUT/mut_$id.err
     rc=$?
-    echo "== $id exit=$rc $(grep -m1 -E 'VIOLATION|OK property|MACHINERY' /tmp/mut_$id.out /tmp/mut_$id.err | head -1 | cut -c1-200)"
-    grep -m2 "kind=" /tmp/mut_$id.err | cut -c1-200
+    echo "== $id exit=$rc $(grep -m1 -E 'VIOLATION|OK property|MACHINERY' $OUT/mut_$id.out $OUT/mut_$id.err | head -1 | cut -c1-200)"
+    grep -m2 "kind=" $OUT/mut_$id.err | cut -c1-200
 done
 cd $ISO/repo && git checkout -- .
